@@ -4,7 +4,7 @@
     entry-wise with the matrix the real code filled (before loads).
 """
 import numpy as np
-from pmv import common, gen, observe, instrument
+from pmv import common, gen, observe, instrument, corpus
 from pmv.oracles import georef, zref, pulseref
 
 ID   = 'C02'
@@ -27,7 +27,7 @@ ASSUMPTIONS = [ 'Gauss-Legendre 32 x 2 vs 32 x 4 agreement 1e-9 (else scipy quad
 
 def plan (tier, seed):
     n = 320 if tier == 'quick' else 4000
-    return [dict (i = i, seed = seed) for i in range (n)]
+    return [dict (i = i, seed = seed) for i in range (n)] + corpus.plan_cases (seed, tier, 1, 3)
 # end def plan
 
 def curve_family (rng):
@@ -66,6 +66,10 @@ def curve_family (rng):
 # end def curve_family
 
 def make (c):
+    if 'corpus' in c:
+        spec = corpus.make (c, 2)
+        spec ['budget'] = 120
+        return spec
     rng = np.random.default_rng ([c ['seed'], 2, c ['i']])
     u   = rng.random ()
     if u < 0.15:
@@ -116,7 +120,7 @@ def check (c):
              and np.linalg.norm (ref [i]['point'] - ref [j]['point']) >= 2.5 * max (seg [i], seg [j])]
     sp    = [p for p in allp if p [0] in special or p [1] in special]
     rng.shuffle (sp)
-    budget = c.get ('budget', 240)
+    budget = spec.get ('budget', c.get ('budget', 240))
     pairs  = sp [: budget * 2 // 3]
     rest   = [p for p in allp if p not in set (pairs)]
     rng.shuffle (rest)
